@@ -129,9 +129,12 @@ def located_error(
     if not isinstance(nodes, list):
         nodes = [nodes]
 
+    # An empty MultipleException (raised or returned by a resolver) carries
+    # no error to unwrap: it is the error itself
     exceptions = (
         original_error.exceptions
         if isinstance(original_error, MultipleException)
+        and original_error.exceptions
         else [original_error]
     )
 
